@@ -637,6 +637,15 @@ func orderName(o string) string {
 // dispatcher to the kind allocated in that clause.
 func dispatcherCases(w *World, fi *FuncInfo) map[int64]string {
 	out := dispatcherCasesIn(w, fi)
+	defer func() {
+		// a code handled before the switch by `if x == CODE { … }` (directly or through a helper that
+		// allocates the kind) is a case as well
+		for v, k := range dispatchIfCases(w, fi) {
+			if _, dup := out[v]; !dup {
+				out[v] = k
+			}
+		}
+	}()
 	// a lookup table (package-level map or slice of constructors indexed by the code) is a switch written
 	// as data: each entry is a case
 	for v, k := range dispatchTableCases(w, fi) {
@@ -787,6 +796,101 @@ func allocatedKind(w *World, info *types.Info, e ast.Expr, depth int) string {
 		scan(e)
 	}
 	return kind
+}
+
+// dispatchIfCases: `if x == CODE { … }` statements of the dispatcher whose body allocates a kind, itself
+// or through a same-package helper it calls.
+func dispatchIfCases(w *World, fi *FuncInfo) map[int64]string {
+	out := map[int64]string{}
+	info := fi.Pkg.TypesInfo
+	ast.Inspect(fi.Decl.Body, func(n ast.Node) bool {
+		is, ok := n.(*ast.IfStmt)
+		if !ok {
+			return true
+		}
+		be, ok := unparen(is.Cond).(*ast.BinaryExpr)
+		if !ok || be.Op != token.EQL {
+			return true
+		}
+		code, ok := constIntOf(info, be.Y)
+		if !ok {
+			if code, ok = constIntOf(info, be.X); !ok {
+				return true
+			}
+		}
+		kind := ""
+		for _, st := range is.Body.List {
+			if kind != "" {
+				break
+			}
+			ast.Inspect(st, func(m ast.Node) bool {
+				if kind != "" {
+					return false
+				}
+				if _, isSw := m.(*ast.SwitchStmt); isSw {
+					return false
+				}
+				if e, ok := m.(ast.Expr); ok {
+					if k := directAlloc(w, info, e); k != "" {
+						kind = k
+						return false
+					}
+				}
+				if c, ok := m.(*ast.CallExpr); ok {
+					if hf := w.FuncOf(w.calleeOf(info, c)); hf != nil && hf != fi && hf.Pkg == fi.Pkg && hf.Decl.Body != nil && hf.Decl.Name.Name != "UnmarshalBinary" {
+						ast.Inspect(hf.Decl.Body, func(q ast.Node) bool {
+							if kind != "" {
+								return false
+							}
+							if e, ok := q.(ast.Expr); ok {
+								if k := directAlloc(w, hf.Pkg.TypesInfo, e); k != "" {
+									kind = k
+								}
+							}
+							return true
+						})
+					}
+				}
+				return true
+			})
+		}
+		if kind != "" {
+			if _, dup := out[code]; !dup {
+				out[code] = kind
+			}
+		}
+		return true
+	})
+	return out
+}
+
+// directAlloc: e is new(T), &T{…} or NewT(…) of a kind.
+func directAlloc(w *World, info *types.Info, e ast.Expr) string {
+	switch x := e.(type) {
+	case *ast.UnaryExpr:
+		if x.Op == token.AND {
+			if cl, ok := unparen(x.X).(*ast.CompositeLit); ok {
+				if kk := w.KindOfType(info.TypeOf(cl)); kk != nil {
+					return kk.Name
+				}
+			}
+		}
+	case *ast.CallExpr:
+		if id, ok := x.Fun.(*ast.Ident); ok && id.Name == "new" && len(x.Args) == 1 {
+			if kk := w.KindOfType(info.TypeOf(x.Args[0])); kk != nil {
+				return kk.Name
+			}
+			return ""
+		}
+		if t := info.TypeOf(x); t != nil {
+			if kk := w.KindOfType(t); kk != nil {
+				if fn := w.calleeOf(info, x); fn != nil && strings.HasPrefix(fn.Name(), "New") {
+					return kk.Name
+				}
+			}
+		}
+	}
+	return ""
 }
 
 // dispatchTableCases: the entries of the package-level tables (map or slice composite literals with
